@@ -322,12 +322,16 @@ func expectedStatus(a actIn) int {
 		if a.RawQ != "" || bad(a.QT) || bad(a.QC) {
 			return 400
 		}
-	case post && a.Path == "/topic/delete", get && (a.Path == "/lookup" || a.Path == "/channels"):
+	case post && a.Path == "/topic/delete":
+		if a.RawQ != "" || bad(a.QT) { // the wildcard is refused since the fix of F14
+			return 400
+		}
+	case get && (a.Path == "/lookup" || a.Path == "/channels"):
 		if a.RawQ != "" || a.QT == nil {
 			return 400
 		}
 	case post && a.Path == "/topic/tombstone":
-		if a.RawQ != "" || a.QT == nil || a.QN == nil {
+		if a.RawQ != "" || bad(a.QT) || a.QN == nil {
 			return 400
 		}
 	}
